@@ -679,3 +679,48 @@ def rule_ONE1(ctx, files=None):
                          % (name, 'positive' if sides['+'] else 'negative', f.loc(at)))
     res.analysed['signed_differences_with_a_bound'] = nvars
     return res, nvars
+
+
+def rule_CP2(ctx, files=None):
+    res = RuleResult('CP2', 'consistent renaming between sibling functions: two functions of one class whose bodies have the '
+                            'same structure and differ only in the variables and members they name (UTMUPSRepresentation / '
+                            'AltUTMUPSRepresentation) rename a name that is renamed at two or more positions at every position')
+    groups = {}
+    seen = set()
+    for f in sorted(ctx.lib_fns(), key=lambda x: (x.file, x.line)):
+        if not _in(f, files) or f.d.get('body', -1) < 0 or not f.cls or (f.file, f.line, f.name) in seen:
+            continue
+        seen.add((f.file, f.line, f.name))
+        ids = []
+        sh = _shape(f, f.d['body'], ids)
+        if len(ids) >= 4:
+            groups.setdefault((f.cls, sh), []).append((f, ids))
+    npairs = 0
+    for (cls, sh), fs in sorted(groups.items(), key=lambda kv: (kv[0][0], kv[1][0][0].line)):
+        for a in range(len(fs)):
+            for b in range(a + 1, len(fs)):
+                (f, ia), (g, ib) = fs[a], fs[b]
+                na, nb = [x[0] for x in ia], [x[0] for x in ib]
+                if na == nb:
+                    continue
+                npairs += 1
+                cnt = {}
+                for x, y in zip(na, nb):
+                    cnt[(x, y)] = cnt.get((x, y), 0) + 1
+                bad = None
+                for (x, y), c in cnt.items():
+                    if x == y or c < 2:
+                        continue
+                    for z in (x, y):
+                        if 0 < cnt.get((z, z), 0) < c:
+                            pos = [k for k, (p_, q_) in enumerate(zip(na, nb)) if p_ == z and q_ == z]
+                            owner, lst = (g, ib) if z == x else (f, ia)
+                            bad = (x, y, z, c, owner, lst[pos[0]][1])
+                res.ob(bad is None, {'functions': [f.q, g.q], 'renaming': sorted('%s->%s x%d' % (x, y, c) for (x, y), c in cnt.items() if x != y)})
+                if bad:
+                    x, y, z, c, owner, at = bad
+                    res.fail(owner.q, '%s/%s' % (x, y), owner.loc(at),
+                             '%s and %s are clones in which %s is renamed to %s at %d positions, but %s appears unrenamed at %s'
+                             % (f.q, g.q, x, y, c, z, owner.loc(at)))
+    res.analysed.update({'function_clone_pairs': npairs})
+    return res, npairs
